@@ -32,7 +32,7 @@ Lemma pinvb_extend_loop ps s0 (Hps : nlen s0 = ps) st (Hsp : st_is_special st = 
 Proof.
   induction segs as [|seg rest IH]; intros x s' H I; cbn [psm_extend_loop] in H.
   - inversion H; subst. exact I.
-  - destruct (list_eqb seg [46] || list_eqb seg [46; 46]); [eapply IH; eassumption|].
+  - destruct (psm_skips seg); [eapply IH; eassumption|].
     set (s1 := if (ps + 1 <? nlen x) || (nlen x =? ps) then x ++ [47] else x) in *.
     assert (PInvB ps s0 s1) as I1.
     { subst s1. destruct ((ps + 1 <? nlen x) || (nlen x =? ps)); [|exact I]. apply (pinvb_app ps s0 st Hps); [exact I | reflexivity]. }
